@@ -151,6 +151,18 @@ func (r *Run) accessCheck(st *State, fr *Frame, a *Addr, write bool, in ssa.Inst
 	if e.initFuncs[e.fnName[fr.Fn]] {
 		return
 	}
+	if !write {
+		if b := e.cs.Funcs[e.fnName[fr.Fn]]; b != nil {
+			for _, cl := range b.All("reads-owned") {
+				for _, w := range cl.Words {
+					if w == field {
+						e.note("ownership: %s reads %s without the lock: %s", e.fnName[fr.Fn], a.Region, cl.Expr)
+						return
+					}
+				}
+			}
+		}
+	}
 	rw := "r"
 	if write {
 		rw = "w"
@@ -327,6 +339,7 @@ func (r *Run) acquire(st *State, fr *Frame, lr LockRef, mode LockMode, in ssa.In
 		r.havocGuardedOf(st, lr.Owner, lr.Field, lr.Base)
 	}
 	r.assumeInvariants(st, lr.Owner, lr.Field, lr.Base)
+	r.assumeRely(st, fr, lr)
 	// action contracts: old() refers to the state at the first acquisition of the action lock
 	if b := e.cs.Funcs[e.fnName[st.Frames[0].Fn]]; b != nil {
 		if act := b.First("action"); act != nil && len(act.Words) > 0 && act.Words[0] == lr.Field && !st.OldSet {
@@ -335,6 +348,23 @@ func (r *Run) acquire(st *State, fr *Frame, lr LockRef, mode LockMode, in ssa.In
 				st.OldSet = true
 			}
 		}
+	}
+}
+
+// assumeRely: `rely label : expr` clauses of the function being analysed are thread-local facts that are
+// stable under interference (justified in the contracts file); they are re-assumed after every
+// acquisition of the receiver's lock.
+func (r *Run) assumeRely(st *State, fr *Frame, lr LockRef) {
+	e := r.e
+	top := st.Frames[0]
+	b := e.cs.Funcs[e.fnName[top.Fn]]
+	if b == nil || !r.isRecvLock(st, lr) {
+		return
+	}
+	for _, cl := range b.All("rely") {
+		t := e.evalClause(st, top, cl, nil)
+		st.assume(t)
+		e.note("rely (thread-local fact assumed stable under interference) in %s: %s", e.fnName[top.Fn], cl.Expr)
 	}
 }
 
@@ -533,6 +563,7 @@ func (r *Run) sendEvent(st *State, fr *Frame, ch T, v Val, in ssa.Instruction) {
 		e.safety(st, fr, in, "sendclosed", Not(closed), "send on a channel that this function has not closed at "+e.posOf(in))
 	}
 	r.noteEscape(st, v)
+	r.atCall(st, fr, "send", []Val{ch, v}, nil, in)
 	r.bumpChan(st, "sent", ch)
 	st.Ghost["lastsent:"+ch.S] = v
 	// blocking operation: other goroutines run
@@ -564,12 +595,19 @@ func (r *Run) recvEvent(st *State, fr *Frame, ch T, et types.Type, in ssa.Instru
 	r.yield(st, fr, in, "recv")
 	v := e.freshVal(st, et, "recv")
 	r.assumeChanMsg(st, ch, v, et)
+	st.Ghost["lastrecv:"+ch.S] = v
 	return v
 }
 
 // yield: a blocking instruction; nothing is known about unguarded shared state afterwards, but all
 // state this engine tracks is either guarded (re-havoced at acquisition) or thread-local.
 func (r *Run) yield(st *State, fr *Frame, in ssa.Instruction, what string) {
+	// time passes while blocked: earlier context checks are stale
+	for k := range st.Ghost {
+		if strings.HasPrefix(k, "ctxerr.last:") {
+			delete(st.Ghost, k)
+		}
+	}
 	if len(st.Locks) > 0 {
 		st.Facts["blocked-while-holding:"+r.e.posOf(in)] = what + " {" + locksKey(st.Locks) + "}"
 	}
@@ -663,11 +701,46 @@ func (r *Run) goStmt(st *State, fr *Frame, x *ssa.Go) []*State {
 	switch f := fnv.(type) {
 	case *Closure:
 		name = e.fnName[f.Fn]
+		// spawn contract: the preconditions of the body must hold where it is started
+		if blk := e.cs.Funcs[name]; blk != nil && len(blk.All("requires")) > 0 {
+			var args []Val
+			for _, a := range x.Call.Args {
+				args = append(args, r.val(st, fr, a))
+			}
+			vars := e.contractVars(f.Fn, args)
+			ord := e.callOrdinal(fr.Fn, x, name)
+			for _, cl := range blk.All("requires") {
+				px, err := parseSpec(cl.Expr)
+				if err != nil {
+					e.fail("%v", err)
+					continue
+				}
+				c := e.specCtx(st, nil)
+				c.entry = vars
+				for k, v := range vars {
+					c.vars[k] = v
+				}
+				// free variables of a spawned closure: current values of the captured cells
+				for i, fv := range f.Fn.FreeVars {
+					if i < len(f.Binds) {
+						if a, ok := f.Binds[i].(*Addr); ok && a.Kind == ACell {
+							c.vars[fv.Name()] = SV{V: st.Cells[a.Cell], T: a.Cell.Typ}
+						}
+					}
+				}
+				var items []goalItem
+				c.splitGoal(px, nil, "", &items)
+				for _, it := range items {
+					e.emitWith(st, fmt.Sprintf("%s/requires@go:%s#%d:%s", e.fnName[fr.Fn], name, ord, cl.Label()), it.sub, it.hyps, it.atom, cl.Expr, e.posOf(x), cl.Props, cl)
+				}
+			}
+			e.usedContracts[name] = true
+		}
 	case *BoundMethod:
 		name = f.Name
 	}
-	k := "go:" + name
-	st.Counters[k] = App(SInt, "+", r.counter(st, k), IntLit(1))
+	cur := e.regionRead(st, "cnt:go", []Sort{SStr}, SInt, e.strConst(name))
+	e.regionWrite1(st, "cnt:go", SInt, e.strConst(name), App(SInt, "+", cur, IntLit(1)))
 	st.Facts["spawned:"+name+"@"+e.posOf(x)] = locksKey(st.Locks)
 	return nil
 }
